@@ -687,6 +687,7 @@ pub fn run_program(src: &str, only: Option<(&str, &[Vec<V>])>, nvec: usize, rng:
                             hist.add("gen:vector:source-not-valid-hlsl");
                             continue;
                         }
+                        let why_kept = why.clone();
                         let detail = format!(
                             "{} args [{}]: IR gives {} but the emitted Metal {}{}",
                             emitted_name,
@@ -698,7 +699,10 @@ pub fn run_program(src: &str, only: Option<(&str, &[Vec<V>])>, nvec: usize, rng:
                         // classification against the alternative reading / the known hazards
                         let alt = MslEval::new(items, true).run(emitted_name, &top, &statics);
                         msleval::take_stuck();
-                        if cmp(&alt).is_ok() && items.iter().any(has_literal_hazard) {
+                        if let Some((Stuck::Class(c), _)) = &why_kept {
+                            // the Metal reading itself names what is wrong with the emitted tree
+                            fails.push(format!("class:{} ## {}", c, detail));
+                        } else if cmp(&alt).is_ok() && items.iter().any(has_literal_hazard) {
                             fails.push(format!("class:metal-integer-literal-typing ## {}", detail));
                         } else if inout_order_hazard(&p.prog) {
                             fails.push(format!("class:inout-copy-in-after-later-arguments ## {}", detail));
